@@ -113,6 +113,24 @@ fn less_than_n(rep: &Reporter) {
             }
         }
     }
+    // every bound up to 256 (and a few large ones) exactly at the bound: n is not below n, n - 1 is, and the progress at
+    // the bound is exactly 1 (bounds whose reciprocal is not exact included)
+    for n in (1u32..=256).chain([1000, 4097, 65_535, 1_000_003]) {
+        let c = LessThanN::new::<P>(n, ValueOf::<ValU>::new());
+        for v in [n - 1, n, n + 1] {
+            rep.case();
+            let mut st: State<P> = State::new();
+            st.insert(ValU(v));
+            let r = catch(|| {
+                c.init(&p, &mut st)?;
+                c.evaluate(&p, &mut st)
+            });
+            let progress = st.try_get_value::<Progress<ValueOf<ValU>>>().ok();
+            if !matches!(r, Ok(Ok(b)) if b == (v < n)) || progress.map(f64::to_bits) != Some((v as f64 / n as f64).to_bits()) {
+                rep.violation(&format!("less-than-n:at-the-bound:{}", if v < n { "below" } else if v == n { "equal" } else { "above" }), json!({"n": n, "value": v, "result": format!("{r:?}"), "progress": progress, "expected": [json!(v < n), json!(v as f64 / n as f64)]}));
+            }
+        }
+    }
     // every-n
     for &n in &[1u32, 2, 3, 7, 10] {
         let c = EveryN::new::<P>(n, ValueOf::<ValU>::new());
